@@ -345,9 +345,23 @@ func runC08(w *World, c *Check) {
 			{Name: "s2k", Desc: "string-to-key receives the secret, saltp and the parameters", Callee: `crypto/rfc8009\.StringToKey`, Want: `crypto/rfc8009\.StringToKey\(secret, crypto/rfc8009\.GetSaltP\(.*\), s2kparams, recv\)`},
 		})
 	}
-	checkCalls(w, c, "C08.defaults", "crypto/rfc8009.GetSaltP", []CallSpec{
-		{Name: "zero-separator", Desc: "etype name, then a zero octet, then the salt", Callee: `append`, Want: `append\(append\(ename, \[0\]\), salt\)`},
-	})
+	if fn := w.Func("crypto/rfc8009.GetSaltP"); fn == nil {
+		c.Missing("C08.defaults", "crypto/rfc8009.GetSaltP")
+	} else {
+		// the returned bytes, whether appended as bytes or concatenated as strings
+		fa := NewFuncAn(w, fn)
+		ok, detail := false, "no return"
+		en, sa := substParams(fn, "ename"), substParams(fn, "salt")
+		for _, v := range returnedBytes(fa) {
+			ps, total := fa.BufferPlaces(v)
+			detail = placesString(ps) + " (length " + total + ")"
+			ok = len(ps) == 3 && ps[0].What == en && ps[0].Off == "0" && ps[1].What == "0" && ps[1].Off == "len("+en+")" && ps[2].What == sa && ps[2].Off == "1+len("+en+")"
+			if !ok {
+				break
+			}
+		}
+		c.Decide(ok, "C08.defaults", FuncKey(fn), "zero-separator", w.Pos(fn.Pos()), "etype name, then a zero octet, then the salt", "returns "+detail)
+	}
 
 	// ---- generated keys -----------------------------------------------------------
 	if fn := w.Func("types.GenerateEncryptionKey"); fn == nil {
